@@ -48,6 +48,10 @@ DMissingEnd == UNION {{ [f |-> File1(c), e |-> Expect({"MissingEndTag"}), w |-> 
 DCut == UNION {{ [f |-> File1(c), e |-> Expect({"IncompleteTag"}), w |-> "unterminated tag"] :
                    c \in { <<Mark(n, "cut")>>, <<Elem("x", <<>>, <<>>), Mark(n, "cut")>>,
                            <<Elem("o", <<>>, <<Mark(n, "cut")>>)>> } } : n \in Leafs }
+(* --- unterminated END tag: the source ends inside `</name` *)
+DCutEnd == UNION {{ [f |-> File1(c), e |-> Expect({"IncompleteTag", "MissingEndTag", "InvalidEndTag"}), w |-> "unterminated end tag"] :
+                      c \in { <<Mark(n, "cutend")>>, <<Elem("x", <<>>, <<>>), Mark(n, "cutend")>>,
+                              <<Elem("o", <<>>, <<Mark(n, "cutend")>>)>> } } : n \in Leafs }
 (* --- unterminated {{ and trailing garbage in a binding, in text and attribute positions *)
 BadVals(dx) == { Mark(EV(e), dx) : e \in {EA, Mem(Id("o"), "p"), Bin("+", EA, Lit("1")), Call(Id("f"), <<EA>>),
                                           Arr(<<Item(EA)>>), Cond(EA, EB, Lit("1"))} }
@@ -84,7 +88,7 @@ DStruct == { [f |-> File1(<<Mark(Elem("v", <<>>, <<>>), d \o ":" \o k)>>), e |->
                        <<"nosrc-include", {"MissingSourcePath"}>>, <<"nosrc-import", {"MissingSourcePath"}>>,
                        <<"nomodule-wxs", {"MissingModuleName"}>>, <<"nois-template", {"MissingModuleName"}>> } }
 
-DCases == CASE DFamily = "end" -> DMissingEnd [] DFamily = "cut" -> DCut [] DFamily = "unterminated" -> DUnterminated
+DCases == CASE DFamily = "end" -> DMissingEnd [] DFamily = "cut" -> DCut \cup DCutEnd [] DFamily = "unterminated" -> DUnterminated
             [] DFamily = "garbage" -> DGarbage [] DFamily = "prefix" -> DPrefix [] DFamily = "dup" -> DDup
             [] DFamily = "struct" -> DStruct
 
